@@ -131,6 +131,14 @@ def _euler1d(cfg, B):
         prm['p'] = pp
         if bc == 'outsub_qtot':
             B.assume(pp <= V0['ptot'][0])
+    # the user's dictionary is first used for the OTHER side (one dictionary object may serve several boundaries) and must come back
+    # unchanged: a boundary function neither stores anything in it nor depends on an earlier evaluation
+    keys0 = sorted(prm)
+    try:
+        model.namedBC(bc, -dr, [d.copy() for d in data], prm)
+    except Exception:
+        pass
+    B.ob('parameters-dictionary-untouched', 'true', B.boolean(sorted(prm) == keys0), meta={'keys': sorted(prm)})
     r = model.namedBC(bc, dr, data, prm)
     r = [x if hasattr(x, '__len__') else B.array([x]) for x in r]
     VB, QB = _vars_of(B, model, r)
@@ -225,6 +233,13 @@ def _euler2d(cfg, B):
     if bc == 'outsub':
         pp = B.pos('pimp', 0.2, 3.0)
         prm['p'] = pp
+    keys0 = sorted(prm)
+    other = {'left': 'bottom', 'right': 'top', 'top': 'left', 'bottom': 'right'}[side]
+    try:
+        model.namedBC(prm['type'], mesh.normal_of_bc(other), [d.copy() for d in data], prm)      # same dictionary, another side, first
+    except Exception:
+        pass
+    B.ob('parameters-dictionary-untouched', 'true', B.boolean(sorted(prm) == keys0), meta={'keys': sorted(prm)})
     r = model.namedBC(prm['type'], dirn, data, prm)
     rb, Vb, pb = r[0], r[1], r[2]
     if not hasattr(rb, '__len__'):
